@@ -493,7 +493,12 @@ func (p *Pipeline) In(sourceID SourceID, sourceName string, offsets Offsets, byt
 		decoder.SYSLOG_RFC3164, decoder.SYSLOG_RFC5424, decoder.CSV:
 		err = p.decoder.DecodeToJson(event.Root, bytes)
 	case decoder.RAW:
-		event.Root.AddFieldNoAlloc(event.Root, "message").MutateToBytesCopy(event.Root, bytes[:len(bytes)-1])
+		msg := bytes
+		// inputs hand records over with or without the trailing newline
+		if msg[len(msg)-1] == '\n' {
+			msg = msg[:len(msg)-1]
+		}
+		event.Root.AddFieldNoAlloc(event.Root, "message").MutateToBytesCopy(event.Root, msg)
 	case decoder.CRI:
 		event.Root.AddFieldNoAlloc(event.Root, "log").MutateToBytesCopy(event.Root, row.Log)
 		event.Root.AddFieldNoAlloc(event.Root, "time").MutateToBytesCopy(event.Root, row.Time)
